@@ -45,6 +45,7 @@ func runC14(c *Ctx) {
 	c.Rule("R14.2", 120, "every unchecked assertion and every index/slice expression in reachable module code is discharged")
 	c.Rule("R14.3", 5, "main: every error becomes a message and a non-zero exit, never a stack trace")
 	c.Rule("R14.4", 4, "entry points never return success with a nil result")
+	c.Rule("R14.9", 1, "a nil receiver kept and dereferenced inside the dependency cannot crash emerge: calls that reach it recover")
 	c.Rule("R14.5", 1, "a pointer field that some constructor leaves nil is dereferenced only under a nil test")
 	c.Rule("R14.7", 3, "a pointer or interface returned together with an error is dereferenced only where the error is known to be nil")
 	c.Rule("R14.8", 4, "a counting loop is not bounded by a number written in the input")
@@ -139,6 +140,7 @@ func runC14(c *Ctx) {
 	c.Extra("functions_in_scope", len(scope))
 	checkErrValueUse(c, "R14.7", scope)
 	checkLoopBounds(c, "R14.8", scope)
+	checkDependencyPanics(c, "R14.9", ri)
 	examinedLines := map[string]bool{}
 	noteLine := func(p token.Pos) {
 		if p.IsValid() {
@@ -793,6 +795,80 @@ func checkSliceSite(c *Ctx, f *ssa.Function, x *ssa.Slice, covered, lexMin map[t
 		c.Pass("R14.2", key, x.Pos(), "bounds established by dominating length tests")
 		return
 	}
+	// a bound found by a search in the very operand: bytes/strings Index..., LastIndex... return -1 <= i < len(s), so
+	// s[i+1:] is always in bounds and s[i:], s[:i] are where i was tested against -1 / 0
+	{
+		searchIn := func(v ssa.Value) (ssa.Value, bool) {
+			call, ok := v.(*ssa.Call)
+			if !ok || len(call.Call.Args) < 1 {
+				return nil, false
+			}
+			n := staticCalleeName(call)
+			if !(strings.HasPrefix(n, "bytes.") || strings.HasPrefix(n, "strings.")) || !strings.Contains(n, "Index") {
+				return nil, false
+			}
+			same := func(a, b ssa.Value) bool {
+				for i := 0; i < 3; i++ {
+					if cv, ok := a.(*ssa.Convert); ok {
+						a = cv.X
+						continue
+					}
+					break
+				}
+				for i := 0; i < 3; i++ {
+					if cv, ok := b.(*ssa.Convert); ok {
+						b = cv.X
+						continue
+					}
+					break
+				}
+				return a == b
+			}
+			if !same(call.Call.Args[0], x.X) {
+				return nil, false
+			}
+			return call, true
+		}
+		nonNeg := func(idx ssa.Value) bool {
+			for _, cd := range controlConds(x.Block()) {
+				bo, ok := cd.v.(*ssa.BinOp)
+				if !ok || bo.X != idx {
+					continue
+				}
+				k, ok := bo.Y.(*ssa.Const)
+				if !ok || k.Value == nil {
+					continue
+				}
+				switch {
+				case bo.Op == token.GEQ && k.Int64() == 0 && cd.pol, bo.Op == token.LSS && k.Int64() == 0 && !cd.pol,
+					bo.Op == token.NEQ && k.Int64() == -1 && cd.pol, bo.Op == token.EQL && k.Int64() == -1 && !cd.pol,
+					bo.Op == token.GTR && k.Int64() == -1 && cd.pol:
+					return true
+				}
+			}
+			return false
+		}
+		boundOK := func(bv ssa.Value) bool {
+			if bv == nil {
+				return true
+			}
+			if bo, ok := bv.(*ssa.BinOp); ok && bo.Op == token.ADD && isConstInt(bo.Y, 1) {
+				if _, ok := searchIn(bo.X); ok {
+					return true
+				}
+			}
+			if idx, ok := searchIn(bv); ok && nonNeg(idx) {
+				return true
+			}
+			return false
+		}
+		lo := okLow || boundOK(x.Low)
+		hi := okHigh || boundOK(x.High)
+		if lo && hi && (x.Low == nil || x.High == nil || okLow || okHigh) {
+			c.Pass("R14.2", key, x.Pos(), "a bound returned by a search in the operand itself (-1 <= i < len)")
+			return
+		}
+	}
 	if why, ok := reviewedIndex[shortFn(f)][describeSlice(f, x)]; ok {
 		c.Pass("R14.2", key, x.Pos(), "reviewed: "+why)
 		return
@@ -1051,16 +1127,54 @@ func valueNonNilByConstruction(v ssa.Value, depth int) bool {
 	case *ssa.UnOp:
 		// a local captured by closures lives in a cell: every value stored into it must be non-nil
 		if a, ok := x.X.(*ssa.Alloc); ok && x.Op == token.MUL {
-			n := 0
+			// the stores that can reach this load (a named result is assigned nil on the error paths and the value on the
+			// success path: only what reaches the load counts); a closure that writes the cell must do so under recover() != nil
 			for _, r := range *a.Referrers() {
-				if st, ok := r.(*ssa.Store); ok && st.Addr == ssa.Value(a) {
-					n++
-					if !valueNonNilByConstruction(st.Val, depth+1) {
-						return false
+				if mc, ok := r.(*ssa.MakeClosure); ok {
+					cl, _ := mc.Fn.(*ssa.Function)
+					for bi, bind := range mc.Bindings {
+						if bind != ssa.Value(a) || cl == nil || bi >= len(cl.FreeVars) {
+							continue
+						}
+						for _, cb := range cl.Blocks {
+							for _, cin := range cb.Instrs {
+								st, ok := cin.(*ssa.Store)
+								if !ok || st.Addr != ssa.Value(cl.FreeVars[bi]) {
+									continue
+								}
+								underRecover := false
+								for _, cd := range controlConds(cb) {
+									if bo, ok := cd.v.(*ssa.BinOp); ok && (bo.Op == token.NEQ) == cd.pol && (bo.Op == token.NEQ || bo.Op == token.EQL) {
+										for _, side := range []ssa.Value{bo.X, bo.Y} {
+											if call, ok := side.(*ssa.Call); ok {
+												if bi2, ok := call.Call.Value.(*ssa.Builtin); ok && bi2.Name() == "recover" {
+													underRecover = true
+												}
+											}
+										}
+									}
+								}
+								if !underRecover && !valueNonNilByConstruction(st.Val, depth+1) {
+									return false
+								}
+							}
+						}
 					}
 				}
 			}
-			return n > 0
+			vals, entry := reachingStores(x, a)
+			if entry || len(vals) == 0 {
+				return false
+			}
+			for _, v := range vals {
+				if v == ssa.Value(x) {
+					continue
+				}
+				if !valueNonNilByConstruction(v, depth+1) {
+					return false
+				}
+			}
+			return true
 		}
 		return false
 	case *ssa.Phi:
@@ -2435,4 +2549,46 @@ func sameLocalField(a, b ssa.Value, use *ssa.BasicBlock) bool {
 	}
 	_ = use
 	return true
+}
+
+// reachingStores returns the values of the stores into the local cell a that can be the last one before the load ld, and
+// whether the load can be reached from the function's entry without any store (the cell then holds its zero value).
+func reachingStores(ld *ssa.UnOp, a *ssa.Alloc) (vals []ssa.Value, fromEntry bool) {
+	type pt struct {
+		b *ssa.BasicBlock
+		i int
+	}
+	seen := map[*ssa.BasicBlock]bool{}
+	var scan func(b *ssa.BasicBlock, from int)
+	scan = func(b *ssa.BasicBlock, from int) {
+		for i := from; i >= 0; i-- {
+			if st, ok := b.Instrs[i].(*ssa.Store); ok && st.Addr == ssa.Value(a) {
+				vals = append(vals, st.Val)
+				return
+			}
+			if b.Instrs[i] == ssa.Instruction(a) {
+				fromEntry = true // the allocation itself: nothing was stored since
+				return
+			}
+		}
+		if len(b.Preds) == 0 {
+			fromEntry = true
+			return
+		}
+		for _, p := range b.Preds {
+			if !seen[p] {
+				seen[p] = true
+				scan(p, len(p.Instrs)-1)
+			}
+		}
+	}
+	b := ld.Block()
+	idx := -1
+	for i, in := range b.Instrs {
+		if in == ssa.Instruction(ld) {
+			idx = i
+		}
+	}
+	scan(b, idx-1)
+	return vals, fromEntry
 }
